@@ -1,17 +1,17 @@
 """Per-property check definitions: which model families are run and how their findings are attributed."""
 import json, os
 from . import common
-from .cgt import cgt_family, law_family, report_family, calendar_family, combine, fam_list
+from .cgt import cgt_family, law_family, report_family, calendar_family, fx_family, combine, fam_list
 
 
 def c01(tier, seed):
-    return combine(fam_list(tier, ['core_q', 'frac_q', 'split_q'], ['core_t', 'split_t', 'two_q']), 'multi_leg_disposals',
+    return combine(fam_list(tier, ['core_q', 'frac_q', 'split_q', 'two_split_q'], ['core_t', 'split_t', 'two_q']), 'multi_leg_disposals',
                    'every cell ledger of the family (TLC-enumerated) x base dates; non-trivial = ledgers with a disposal '
                    'identified by two or more legs')
 
 
 def c02(tier, seed):
-    return combine(fam_list(tier, ['core_q', 'frac_q', 'split_q'], ['core_t', 'split_t', 'events_q']), 'covered',
+    return combine(fam_list(tier, ['core_q', 'frac_q', 'split_q', 'two_split_q'], ['core_t', 'split_t', 'events_q']), 'covered',
                    'every cell ledger of the family; non-trivial = accepted (covered) ledgers, on which the three '
                    'conservation equalities are evaluated on the implementation\'s own report')
 
@@ -23,7 +23,7 @@ def c03(tier, seed):
 
 
 def c05(tier, seed):
-    return combine(fam_list(tier, ['core_q', 'frac_q', 'split_q'], ['core_t', 'split_t', 'two_q']), 'uncovered',
+    return combine(fam_list(tier, ['core_q', 'frac_q', 'split_q', 'two_split_q'], ['core_t', 'split_t', 'two_q']), 'uncovered',
                    'every cell ledger of the family, covered or not; non-trivial = uncovered ledgers (must be refused '
                    'naming security and date); covered ones must be accepted')
 
@@ -37,7 +37,7 @@ def c06(tier, seed):
 
 
 def c09(tier, seed):
-    return combine(fam_list(tier, ['two_q'], ['two_t']) + laws(tier, ['project_q'], ['project_t']), ['covered', 'nontrivial'],
+    return combine(fam_list(tier, ['two_q', 'two_split_q'], ['two_t']) + laws(tier, ['project_q'], ['project_t']), ['covered', 'nontrivial'],
                    'two-security cell ledgers (TLC checks OthersUntouched on every step); each security\'s legs, costs and '
                    'holding must equal the single-security specification outcome whatever the other security does and '
                    'wherever its lines sit; non-trivial = accepted ledgers')
@@ -48,7 +48,7 @@ def laws(tier, quick, thorough):
 
 
 def c10(tier, seed):
-    return combine(laws(tier, ['rescale_q', 'unsplit_q'], ['rescale_t', 'rescale5_t', 'unsplit_t']) + fam_list(tier, ['split_q'], ['split_t', 'events_split_t']),
+    return combine(laws(tier, ['rescale_q', 'unsplit_q'], ['rescale_t', 'rescale5_t', 'unsplit_t']) + fam_list(tier, ['split_q', 'two_split_q'], ['split_t', 'events_split_t']),
                    ['nontrivial', 'with_splits'],
                    'pairs (ledger with one split at every position, same ledger rewritten in post-split units) and (ledger, '
                    'ledger + SPLIT f .. UNSPLIT f with no trade between): TLC checks the law between the two specification '
@@ -85,6 +85,17 @@ def c07(tier, seed):
                    'dates + slices compared')
 
 
+def c08(tier, seed):
+    return combine([fx_family(tier)], ['multi_foreign_field', 'missing_rate_refused', 'bad_folder_rejected'],
+                   '12 rates-folder configurations (override, addition, two files for one month in both mtime orders, period/name '
+                   'mismatch in month / year / both, zero and negative rates, non-xml file, good-then-bad) x every assignment '
+                   'of GBP/USD/EUR to the six money fields of a BUY / DIVIDEND / SELL ledger x a SELL month with and without '
+                   'bundled rates; TLC checks latest-mtime-wins, locality of overrides, rejection and own-month keys on the Fx '
+                   'state machine; the implementation is compared with its own GBP twin, with the expected error, and on '
+                   'every bundled (currency, month) key; non-trivial = ledgers with >= 2 foreign fields + refused runs',
+                   assumptions=['bundled rates are read independently from the XML text under crates/cgt-money/resources/rates'])
+
+
 def c11(tier, seed):
     return combine(fam_list(tier, ['events_q'], ['events_t', 'events_split_t']), 'with_events',
                    'cell ledgers with a capital return / accumulation cell at every position; TLC judges the observed '
@@ -93,7 +104,7 @@ def c11(tier, seed):
                    'non-trivial = ledgers with a cost event')
 
 
-PROPS = {'C04': c04, 'C07': c07, 'C01': c01, 'C02': c02, 'C03': c03, 'C05': c05, 'C06': c06, 'C09': c09, 'C10': c10, 'C11': c11, 'C12': c12}
+PROPS = {'C08': c08, 'C04': c04, 'C07': c07, 'C01': c01, 'C02': c02, 'C03': c03, 'C05': c05, 'C06': c06, 'C09': c09, 'C10': c10, 'C11': c11, 'C12': c12}
 
 
 def replay(prop, path):
